@@ -1,6 +1,7 @@
 SPECIFICATION DSpec
 CONSTANTS
   MaxRank = 2
+  Variant = "none"
   MaxChain = 2
   MaxIters = {0, 1, 2, 3}
   MaxFuns = {1, 2, 4, 6}
